@@ -57,10 +57,21 @@ def gen_config(rng):
                         "tuple_empty": rng.random() < 0.5,
                         "subtable": rng.choice([None, None, "state", "cfg/deep"]), "writeDefault": rng.random() < 0.6})
         classes.append({"name": f"K{i}", "base": base, "tunables": tun})
+    if rng.random() < 0.15:
+        # diamond: Root declares a tunable, one of the two middle classes redeclares it with another default, the leaf
+        # inherits from both (in either order): the redeclaration is the one Python's MRO selects
+        kind = rng.choice(["int", "float", "str", "bool", "floats", "ints"])
+        vals = KINDS[kind][1]
+        root_t = {"attr": "td", "kind": kind, "default": vals[0], "form": "generic", "tuple_empty": False, "subtable": None, "writeDefault": True}
+        right_t = dict(root_t, default=vals[1 % len(vals)] if vals[1 % len(vals)] != vals[0] else vals[-1], writeDefault=rng.random() < 0.7)
+        classes += [{"name": "DRoot", "base": None, "bases": [], "tunables": [root_t]},
+                    {"name": "DLeft", "base": "DRoot", "bases": ["DRoot"], "tunables": [{"attr": "tl", "kind": "int", "default": 3, "form": "generic", "tuple_empty": False, "subtable": None, "writeDefault": True}]},
+                    {"name": "DRight", "base": "DRoot", "bases": ["DRoot"], "tunables": [right_t]},
+                    {"name": "DLeaf", "base": None, "bases": rng.choice([["DLeft", "DRight"], ["DRight", "DLeft"]]), "tunables": []}]
     insts = []
     used = set()
     for i in range(rng.choice([1, 2, 2, 3])):
-        cls = rng.choice(classes)["name"]
+        cls = rng.choice(classes)["name"] if not (classes[-1]["name"] == "DLeaf" and i == 0) else "DLeaf"
         prefix = rng.choice(["components", "components", "autonomous", None])
         name = "robot" if prefix is None and rng.random() < 0.7 else rng.choice(["shooter", "arm", "Two Words", "x1", "drive"])
         if (prefix, name) in used:
@@ -72,16 +83,24 @@ def gen_config(rng):
 
 
 def attrs_of(cfg, clsname):
+    """Effective tunables of a class: Python's own MRO decides which declaration of a name counts."""
     cls = {c["name"]: c for c in cfg["classes"]}
-    chain = []
-    c = cls[clsname]
-    while c is not None:
-        chain.append(c)
-        c = cls[c["base"]] if c["base"] else None
-    out = []
-    for c in reversed(chain):
-        out += c["tunables"]
-    return out
+    dummies = {}
+
+    def mk(n):
+        if n not in dummies:
+            c = cls[n]
+            bases = c.get("bases") if c.get("bases") is not None else ([c["base"]] if c.get("base") else [])
+            dummies[n] = type(n, tuple(mk(b) for b in bases), {})
+        return dummies[n]
+
+    out = {}
+    for k in reversed(mk(clsname).__mro__):
+        if k.__name__ in cls:
+            for t in cls[k.__name__]["tunables"]:
+                out.pop(t["attr"], None)
+                out[t["attr"]] = t
+    return list(out.values())
 
 
 def key_of(inst, t):
@@ -161,7 +180,10 @@ def build_source(cfg):
     L = ["from typing import ClassVar, List", "from collections.abc import Sequence", "from magicbot import tunable",
          "from wpimath.geometry import Rotation2d, Translation2d", ""]
     for c in cfg["classes"]:
-        L.append(f"class {c['name']}" + (f"({c['base']})" if c["base"] else "") + ":")
+        bases = c.get("bases") if c.get("bases") is not None else ([c["base"]] if c["base"] else [])
+        L.append(f"class {c['name']}" + (f"({', '.join(bases)})" if bases else "") + ":")
+        if not c["tunables"]:
+            L.append("    pass")
         for t in c["tunables"]:
             kw = ""
             if t["subtable"]:
